@@ -233,14 +233,35 @@ def run_smc(cfg: dict, fault_at=None, fault_prior_at=None, watchdog_iters=400, *
     orig_mutate = sampler.mutate
     count = {"n": 0}
 
+    # trace of what the kernel is handed: for every call of `mutate` the temperature the population carries, the temperature
+    # argument, and the temperature of every target evaluation (`log_prob(z, beta)`) made while that call is active
+    trace = []
+    orig_log_prob = sampler.log_prob
+
+    def traced_log_prob(z, beta=None, *a, **k):
+        if trace and trace[-1]["active"]:
+            trace[-1]["target_betas"].append(None if beta is None else float(beta))
+        return orig_log_prob(z, beta, *a, **k) if beta is not None or cfg["sampler"] in ("minipcn_smc", "smc", "emcee_smc") else orig_log_prob(z, *a, **k)
+
+    sampler.log_prob = traced_log_prob
+
     def guarded(*a, **k):
         count["n"] += 1
         if count["n"] > watchdog_iters:
             raise Timeout(f"more than {watchdog_iters} iterations")
-        return orig_mutate(*a, **k)
+        particles = a[0] if a else k.get("particles")
+        beta_arg = a[1] if len(a) > 1 else k.get("beta")
+        rec = {"pop_beta": None if getattr(particles, "beta", None) is None else float(particles.beta),
+               "beta_arg": None if beta_arg is None else float(beta_arg), "n": len(particles.x), "target_betas": [], "active": True}
+        trace.append(rec)
+        try:
+            return orig_mutate(*a, **k)
+        finally:
+            rec["active"] = False
 
     sampler.mutate = guarded
-    out = {"cfg": cfg, "sampler": sampler, "target": target, "rng": rng, "flow": flow, "ckpts": ckpts, "kernel_calls": count}
+    out = {"cfg": cfg, "sampler": sampler, "target": target, "rng": rng, "flow": flow, "ckpts": ckpts, "kernel_calls": count,
+           "mutate_trace": trace}
     try:
         out["samples"] = sampler.sample(cfg["n_samples"], **kw)
         out["status"] = "done"
